@@ -340,7 +340,14 @@ static int cmd_run (int argc, char **argv)
       int v = orc_program_find_var_by_name (p, arr[i].name);
       /* 64-byte aligned allocation + requested offset gives every alignment residue */
       unsigned char *raw = NULL;
-      if (posix_memalign ((void **) &raw, 64, arr[i].len + 128)) return 2;
+      if (getenv ("ORCDUMP_GUARD")) {
+        /* the buffer ends flush against an inaccessible page */
+        size_t pg = 4096, body = (arr[i].len + pg - 1) / pg * pg;
+        unsigned char *base = mmap (NULL, body + pg, PROT_READ | PROT_WRITE, MAP_PRIVATE | MAP_ANONYMOUS, -1, 0);
+        if (base == MAP_FAILED) return 2;
+        mprotect (base + body, pg, PROT_NONE);
+        raw = base + body - arr[i].len;
+      } else if (posix_memalign ((void **) &raw, 64, arr[i].len + 128)) return 2;
       bufs[i] = raw;
       memcpy (raw, arr[i].data, arr[i].len);
       /* the element 0 of the array sits at raw + off; buffer bytes before it are guard content from the spec */
@@ -359,7 +366,7 @@ static int cmd_run (int argc, char **argv)
       printf ("%s\"%s\":\"", i ? "," : "", arr[i].name);
       for (k = 0; k < arr[i].len; k++) printf ("%02x", bufs[i][k]);
       printf ("\"");
-      free (bufs[i]);
+      if (!getenv ("ORCDUMP_GUARD")) free (bufs[i]);
     }
     printf ("}}");
     orc_executor_free (ex);
